@@ -1,6 +1,7 @@
 package main
 
 import (
+	"os"
 	"fmt"
 	"go/token"
 	"go/types"
@@ -166,7 +167,21 @@ func (vc *VC) oblige(kind, name string, pos token.Position, src string, guard, c
 		return
 	}
 	vc.obls = append(vc.obls, &Obl{Name: vc.uniq(name), Kind: kind, Func: vc.fn.String(), Pos: pos, Props: props, Goal: and(guard, not(cond)), CmdIdx: len(vc.cmds), Src: src})
-	vc.assume(guard, cond)
+	// "assert P; assume P": what was just demanded is known afterwards - but only when somebody
+	// checks it in this run.  An obligation that belongs to another property (unclaimed here) must not
+	// be assumed: if the code violates it in every state (a guarded field read after the unlock, an
+	// anchored assertion of another check), assuming it would make every later point of the path
+	// unreachable and the obligations of THIS property there vacuously true.  The implicit safety
+	// obligations (nil, bounds, ...) are the exception: "the function does not panic here" is the
+	// usual partial-correctness assumption and later reasoning needs it.
+	if vc.prop == "" || hasProp(props, vc.prop) || os.Getenv("GOVC_ASSUME_UNCLAIMED") != "" {
+		vc.assume(guard, cond)
+		return
+	}
+	switch kind {
+	case "nil", "bounds", "nilmap", "divzero", "typeassert", "makeslice", "panic":
+		vc.assume(guard, cond)
+	}
 }
 
 func (vc *VC) cover(name string, pos token.Position, guard Term, props []string) {
